@@ -77,11 +77,15 @@ CHECKS["C09"] = dict(
     text=("Lean: the rolling loop's output at every selected row is computed from the ring state of that row's group folded over exactly the group's "
           "selected rows (rollGo_at, any interleaving/mask/null keys); the ring state satisfies the invariant RInv (buffer = last `window` values in "
           "ring order, write position, saturating rows-seen, running sum and non-null count agree with the window) for every history; hence rolling "
-          "sum and mean equal the window reduction with the min_periods rule (rolling_sum_eq_window, rolling_mean_eq_window), and the slot about to be "
-          "overwritten holds the value `window` group-rows earlier (shift/diff). Correspondence on numba.rolling_* and GroupBy.rolling_*/shift/diff, "
-          "both layouts, temporal exactness and time unit, boundary windows 32767/32768/40000."),
-    note="PARTIAL: rolling min/max (recomputation of the extremum over the buffer) is in the executable model and compared with the window extremum by correspondence only; index_by_groups=True delegates to pandas rolling (assumed); counters are unbounded in the model (source widths extracted and checked >= 16 bits, boundary windows exercised).",
-    technique="Lean 4 proof (ring-buffer invariant by induction over the history + per-group lift) + differential correspondence",
+          "sum and mean equal the window reduction with the min_periods rule (rolling_sum_eq_window, rolling_mean_eq_window). Rolling max / min: the "
+          "invariant MInv of the extremum kernel (Lemmas/RingMax.lean: the kept extremum is the extremum of the window's non-null values - incremental "
+          "while the window fills, replaced by a value at least as good, otherwise recomputed by min_or_max_and_position over the circular buffer, "
+          "which by window_cover / buf_mem_iff holds exactly the window's values; minOrMax_isExt characterises the scan) gives rolling_max_eq_window "
+          "and rolling_min_eq_window for every history, window and min_periods >= 1. Shift / diff: rolling_shift_diff_eq_window (the value `window` "
+          "group-rows earlier / the difference to it, null until then). Correspondence on numba.rolling_* and GroupBy.rolling_*/shift/diff, both "
+          "layouts, temporal exactness and time unit, boundary windows 32767/32768/40000."),
+    note="index_by_groups=True delegates to pandas rolling (assumed); counters are unbounded in the model (source widths extracted and checked >= 16 bits, boundary windows exercised); the shift / diff theorem is stated for the float view (null = NaN), temporal values are compared by the correspondence run.",
+    technique="Lean 4 proof (ring-buffer invariants for the sum and the extremum kernel by induction over the history + per-group lift) + differential correspondence",
     design="§7 C09",
 )
 
